@@ -177,6 +177,35 @@ def k2_extra_row_int(vals: List[Optional[int]], x: Optional[int]) -> bool:
     return got == want
 
 
+def k2_extra_row_bool(vals: List[Optional[bool]], x: Optional[bool]) -> bool:
+    """
+    pre: 1 <= len(vals) <= P['rows']
+    post: __return__
+    """
+    iv = [None if v is None else int(v) for v in vals]
+    d, r = _disco_verify('BOOLEAN', iv, [None if x is None else int(x)], False, False)
+    if r is None:
+        return True
+    nn = [v for v in iv if v is not None]
+    got = {k: bool(v) for k, v in r.fields['c'].items()}
+    want = {}
+    xi = None if x is None else int(x)
+    for k, val in d.items():
+        if k == 'type':
+            want[k] = True
+        elif k == 'min':
+            want[k] = xi is None or xi >= int(val)
+        elif k == 'max':
+            want[k] = xi is None or xi <= int(val)
+        elif k == 'sign':
+            ok = {'positive': lambda z: z > 0, 'non-negative': lambda z: z >= 0, 'zero': lambda z: z == 0,
+                  'non-positive': lambda z: z <= 0, 'negative': lambda z: z < 0, 'null': lambda z: False}[val]
+            want[k] = xi is None or ok(xi)
+        elif k == 'max_nulls':
+            want[k] = (len(iv) - len(nn) + (1 if xi is None else 0)) <= val
+    return got == want
+
+
 def k2_extra_row_text(vals: List[Optional[str]], x: Optional[str]) -> bool:
     """
     pre: 1 <= len(vals) <= P['rows'] and all(v is None or len(v) <= 1 for v in vals)
@@ -275,6 +304,10 @@ def _obs():
                       'constraint failed exactly when the row breaks it (shorter/longer string, new category, '
                       'duplicate, extra null)', 'TEXT column of 1..%d rows of strings len<=1 + one extra string len<=2 '
                       'or NULL' % rows, param={'rows': rows}, timeout=to, tier=tier, stubs=['sqldouble']))
+    obs.append(Ob('K2', 'k2_extra_row_bool', 'after discovery on a BOOLEAN column, one added row makes verification '
+                  'report min/max/sign/max_nulls failed exactly when the row breaks them',
+                  'BOOLEAN column of 1..3 rows of 0/1/NULL + one extra value', param={'rows': 3}, timeout=400,
+                  stubs=['sqldouble']))
     obs.append(Ob('K2', 'k2_extra_row_rex', 'a row holding a string that no expression matches makes the rex '
                   'constraint fail (and only then)', '3 concrete expression lists (one with a quote, one empty); extra '
                   'string any text len<=2 or NULL', timeout=300, stubs=['sqldouble']))
